@@ -1,1 +1,2 @@
 //! Recording / model sinks.
+pub mod canon;
